@@ -44,7 +44,7 @@ type chunkReader struct {
 	eofWith   bool  // the last piece is returned together with io.EOF
 	zeroAt    int   // return (0,nil) once when pos reaches this offset (-1: never)
 	zeroDone  bool
-	failAt    int // fail with errInjected once pos reaches this offset (-1: never)
+	failAt    int  // fail with errInjected once pos reaches this offset (-1: never)
 	failWith  bool // the failure is returned together with the last bytes before failAt (n > 0 and an error in one Read)
 	failOnce  bool // the failure is reported by one Read only; afterwards the reader answers io.EOF
 	failed    bool
